@@ -62,9 +62,18 @@ Proof. intros goarch le k pol. exact (policy_assemble_unsupported aliases goarch
 Print Assumptions C07_unsupported_arch.
 
 (** ... and which records those are in the current source: exactly these five have tables *)
-Theorem C07_records_with_tables :
-  map fst (filter (fun e => negb (table_empty (snd e))) all_infos) = ["ARM"; "AARCH64"; "I386"; "X32"; "X86_64"]%string.
-Proof. reflexivity. Qed.
+Theorem C07_records_with_tables : forall key,
+  In key (map fst (filter (fun e => negb (table_empty (snd e))) all_infos)) <->
+  In key ["ARM"; "AARCH64"; "I386"; "X32"; "X86_64"]%string.
+Proof.
+  assert (H: forallb (fun k => existsb (String.eqb k) ["ARM"; "AARCH64"; "I386"; "X32"; "X86_64"]%string)
+                     (map fst (filter (fun e => negb (table_empty (snd e))) all_infos)) = true /\
+             forallb (fun k => existsb (String.eqb k) (map fst (filter (fun e => negb (table_empty (snd e))) all_infos)))
+                     ["ARM"; "AARCH64"; "I386"; "X32"; "X86_64"]%string = true) by (split; vm_compute; reflexivity).
+  destruct H as [H1 H2]. rewrite forallb_forall in H1, H2. intros key. split; intros Hin.
+  - specialize (H1 _ Hin). apply existsb_exists in H1. destruct H1 as [x [Hx E]]. apply String.eqb_eq in E. subst. exact Hx.
+  - specialize (H2 _ Hin). apply existsb_exists in H2. destruct H2 as [x [Hx E]]. apply String.eqb_eq in E. subst. exact Hx.
+Qed.
 Print Assumptions C07_records_with_tables.
 
 (** non-vacuity: one rejected policy per defect kind with the expected class, and an accepted one *)
